@@ -9,7 +9,7 @@ container or compressor-wrapper code; 7zAES key derivation re-implemented with h
 the file image (packed sizes tile the data area, offsets inside the file).
 
 read_archive(data, model, password=None, strict_tiling=True) ->
-   {"members": [{"name","kind","data","crc","mtime","attr"}...], "notes": [...]}  or raises RefError."""
+   {"members": [{"name","kind","data","crc","mtime","attr","ctime","atime"}...], "notes": [...]}  or raises RefError."""
 import bz2
 import hashlib
 import lzma
@@ -145,7 +145,12 @@ def parse_with_spec(model, raw):
     for f in folders:
         coders = [(bytes(c[0]), (bytes(c[3][0]) if c[3] != [] else None), c[1], c[2]) for c in f[0]]
         fl.append({"coders": coders, "bonds": f[1], "packed": f[2], "unpacksizes": f[3], "crc": (f[4][0] if f[4] else None)})
-    return {"valid": valid == 1, "plans": plans, "packpos": packpos, "packsizes": packsizes,
+    # creation / access time of every entry, as the same strict reader (s_header) reads the header
+    t = model.call("spec_times", [LIM, list(raw)])
+    times = [((x[0][0] if x[0] else None), (x[1][0] if x[1] else None)) for x in t[1]] if t[0] == 0 else []
+    if len(times) != len(plans):
+        raise RefError("specification parser: %d entries with times for %d plans" % (len(times), len(plans)))
+    return {"valid": valid == 1, "plans": plans, "times": times, "packpos": packpos, "packsizes": packsizes,
             "packcrcs": [(c[0] if c else None) for c in packcrcs], "folders": fl, "nums": nums, "sizes": sizes,
             "crcs": [(c[0] if c else None) for c in crcs]}
 
@@ -242,7 +247,7 @@ def read_archive(data, model, password=None, strict_tiling=True):
             raise RefError("sub-stream sizes of folder %d sum to %d, folder decodes to %d" % (fi, tot, len(decoded[fi])))
         k += n
     members = []
-    for p in h["plans"]:
+    for p, (ctime, atime) in zip(h["plans"], h["times"]):
         name = "".join(chr(c) for c in p[0][0]) if p[0] else None
         kind = {0: "file", 1: "empty", 2: "dir"}[p[1]]
         d = b""
@@ -256,6 +261,7 @@ def read_archive(data, model, password=None, strict_tiling=True):
             if crc is not None and zlib.crc32(d) != crc:
                 raise RefError("member CRC (%s)" % name)
         members.append({"name": name, "kind": kind, "data": d, "crc": crc, "folder": p[2], "offset": p[3],
-                        "mtime": (p[6][0] if p[6] else None), "attr": (p[7][0] if p[7] else None)})
+                        "mtime": (p[6][0] if p[6] else None), "attr": (p[7][0] if p[7] else None),
+                        "ctime": ctime, "atime": atime})
     return {"members": members, "notes": notes, "layout": {"folders": len(h["folders"]), "nums": h["nums"],
                                                             "packpos": h["packpos"], "encoded": levels}}
